@@ -36,7 +36,7 @@ UNIT['stubs'] = {
         'params': 'struct BuildDB *self',
         # every commit point is consistent: if the build may have stored results stamped with the new epoch, that epoch has been
         # handed to the database in the same transaction before the commit
-        'requires': [('P:C04', 'g_txn_open'), ('P:C04,P:C01', 'g_exec_calls != 0 ==> (g_iter_calls == 1 && g_iter_value == g_engine->currentEpoch)')],
+        'requires': [('P:C04', 'g_txn_open'), ('P:C04,P:C01,P:C05', 'g_exec_calls != 0 ==> (g_iter_calls == 1 && g_iter_value == g_engine->currentEpoch)')],
         'assigns': ['g_txn_open'], 'ensures': ['!g_txn_open']},
     'BuildDB_setCurrentIteration': {
         'ret': '_Bool', 'params': 'struct BuildDB *self, uint64_t value, vstr *error_out',
